@@ -56,12 +56,18 @@
 
 static int first_seg = 1;
 
-void vk_trace(const char *fmt, ...)
+/*
+ * Run-length compression of raw-event posts: consecutive identical "a rp<j>" segments (bursts of posts) are printed
+ * as one segment "a rp<j> *<n>", so that bursts beyond a pipe buffer (65536 posts) fit below the run-away guard.
+ * The extracted model's printer does the same (ocaml/core_drv.ml.in).  Only these segments are held back; everything
+ * else is printed and flushed at once, so a crash loses at most the pending post segment.
+ */
+static char pend[32];
+static int pendn;
+static int nseg;
+
+static void emit_seg(const char *text)
 {
-	va_list ap;
-
-	static int nseg;
-
 	if (++nseg > 20000) {
 		/* a run-away loop in the library: cut the trace */
 		fputs(" | OVERFLOW", stdout);
@@ -71,9 +77,43 @@ void vk_trace(const char *fmt, ...)
 	if (!first_seg)
 		fputs(" | ", stdout);
 	first_seg = 0;
+	fputs(text, stdout);
+}
+
+static void flush_pend(void)
+{
+	if (pendn) {
+		char buf[64];
+
+		if (pendn > 1)
+			snprintf(buf, sizeof(buf), "%s *%d", pend, pendn);
+		else
+			snprintf(buf, sizeof(buf), "%s", pend);
+		pendn = 0;
+		emit_seg(buf);
+	}
+}
+
+void vk_trace(const char *fmt, ...)
+{
+	va_list ap;
+	char text[8192];
+
 	va_start(ap, fmt);
-	vprintf(fmt, ap);
+	vsnprintf(text, sizeof(text), fmt, ap);
 	va_end(ap);
+	if (!strncmp(text, "a rp", 4) && strlen(text) < sizeof(pend)) {
+		if (pendn && !strcmp(text, pend)) {
+			pendn++;
+			return;
+		}
+		flush_pend();
+		strcpy(pend, text);
+		pendn = 1;
+		return;
+	}
+	flush_pend();
+	emit_seg(text);
 	fflush(stdout);
 }
 
